@@ -212,7 +212,7 @@ def build_ocaml():
     if rc != 0:
         return False, out
     logs = out
-    for prog in ("arena_check", "vec_check", "string_check", "box_check"):
+    for prog in ("arena_check", "vec_check", "string_check", "box_check", "borrow_check"):
         subprocess.run(["cp", os.path.join(OCAML_SRC, prog + ".ml"), OCAML_BUILD])
         rc, out = sh(["ocamlfind", "ocamlopt", "-O2", "-package", "zarith,str", "-linkpkg", "-w", "-a",
                       "model.mli", "model.ml", prog + ".ml", "-o", prog], cwd=OCAML_BUILD, timeout=600)
@@ -368,6 +368,65 @@ def run_box_shard(mode, seed, count, maxops, first, outdir, tag):
     lines = open(rep).read().split("\n")
     return {"mode": mode, "tag": tag, "trace": trace, "status": status, "lines": lines,
             "seed": seed, "first": first, "count": count, "maxops": maxops}
+
+
+BORROW_TIERS = {
+    # longest program enumerated for every kind; thorough adds one more statement for three kinds
+    "quick": (3, False),
+    "thorough": (4, True),
+}
+BORROW_MISMATCH_PROPS = {
+    ("borrowmodel", "accepts"): ["C05"],
+    ("borrowmodel", "trait"): ["C05"],
+}
+BORROW_PROPS = ["C05"]
+
+
+def borrow_run(tier, seed, extra_tag=""):
+    """compile probe + extracted Borrow model (deterministic: the seed only names the cache entry)"""
+    import borrow_probe
+    os.makedirs(CACHE, exist_ok=True)
+    key = "%s_%s_%s%s" % (repo_hash(), verif_hash(), tier, "_search" if extra_tag else "")
+    cpath = os.path.join(CACHE, "borrow_%s.json" % key)
+    if os.path.exists(cpath) and not os.environ.get("BV_NOCACHE"):
+        with open(cpath) as f:
+            r = json.load(f)
+        r["cached"] = True
+        return r
+    maxlen, deep = BORROW_TIERS[tier]
+    if extra_tag:
+        # the search for a failing program looks one statement further
+        maxlen, deep = maxlen + 1, False
+    outdir = os.path.join(TRACES, key)
+    os.makedirs(outdir, exist_ok=True)
+    trace = os.path.join(outdir, "borrow.trace")
+    rep = os.path.join(outdir, "borrow.report")
+    t0 = time.time()
+    status = "ok"
+    try:
+        borrow_probe.run_trace(maxlen, trace, os.path.join(outdir, "work"), deep=deep)
+    except Exception as e:  # rustc missing, crate does not build for clients, ...
+        status = "probe_failed:" + re.sub(r"\s+", "_", str(e))[:200]
+        open(trace, "a").close()
+    with open(trace) as tf, open(rep, "w") as rf:
+        subprocess.run([os.path.join(OCAML_BUILD, "borrow_check")], stdin=tf, stdout=rf, timeout=1800)
+    reports, summaries = [], []
+    for line in open(rep).read().split("\n"):
+        if line.startswith("MISMATCH") or line.startswith("SPEC"):
+            reports.append({"mode": "debug", "trace": trace, "line": line, "engine": "borrow", "seed": 0, "maxops": maxlen})
+        elif line.startswith("SUMMARY"):
+            try:
+                summaries.append(json.loads(line[len("SUMMARY "):]))
+            except Exception:
+                pass
+    if status != "ok":
+        reports.append({"mode": "debug", "trace": trace, "seed": 0, "maxops": maxlen, "engine": "borrow",
+                        "line": "MISMATCH hid=? op=0 who=borrowmodel field=accepts model=? impl=%s desc=[?] hdr=[?]" % status})
+    out = {"key": key, "tier": tier, "seed": seed, "wall_s": time.time() - t0, "reports": reports,
+           "summaries": summaries, "cached": False, "outdir": outdir}
+    with open(cpath, "w") as f:
+        json.dump(out, f)
+    return out
 
 
 def box_run(tier, seed, extra_tag=""):
@@ -539,6 +598,10 @@ def write_replay(prop, kind, what, d, extra=None):
         "checker": d.get("checker", "arena_check"),
         "maxops": d.get("maxops"),
     }
+    if d.get("driver") == "borrow_probe":
+        m = re.match(r"\[(\w+):([\w,]+)\]", d.get("desc", ""))
+        body["replay_cmd"] = ("python3 %s one %s %s" % (os.path.join(VERIF, "tools", "borrow_probe.py"), m.group(1), m.group(2).replace(",", " "))) if m and m.group(1) in ("ref", "str", "slice", "fill", "vec", "string", "box", "vecd", "stringd", "boxd") \
+            else "python3 %s trace %s /dev/stdout | %s" % (os.path.join(VERIF, "tools", "borrow_probe.py"), d.get("maxops"), os.path.join(OCAML_BUILD, "borrow_check"))
     if extra:
         body.update(extra)
     h = hashlib.sha256(json.dumps(body, sort_keys=True).encode()).hexdigest()[:10]
